@@ -37,9 +37,11 @@ func (h *Handler) StartHunt(addr packet.Addr) (packet.HuntStage, error) {
 	h.arpMutex.Lock()
 	defer h.arpMutex.Unlock()
 	if _, found := h.huntList[string(addr.MAC)]; found {
+		verifEmit("arp.start", addr, false)
 		return packet.StageHunt, nil
 	}
 	h.huntList[string(addr.MAC)] = addr
+	verifEmit("arp.start", addr, true)
 
 	if Logger.IsInfo() {
 		Logger.Msg("start hunt").Struct(addr).Write()
@@ -52,6 +54,7 @@ func (h *Handler) StartHunt(addr packet.Addr) (packet.HuntStage, error) {
 func (h *Handler) StopHunt(addr packet.Addr) (packet.HuntStage, error) {
 	h.arpMutex.Lock()
 	_, hunting := h.huntList[string(addr.MAC)]
+	verifEmit("arp.stop", addr, hunting)
 	if hunting {
 		// remove the addr from the hunt list which will cause hunting goroutine to terminate.
 		delete(h.huntList, string(addr.MAC))
@@ -76,12 +79,18 @@ func (h *Handler) spoofLoop(addr packet.Addr) {
 	// 6 second re-arp seem to be adequate;
 	// Experimented with 300ms but no noticeable improvement other the chatty net.
 	ticker := time.NewTicker(time.Second * 6).C
+	lid := verifLoopStart(addr)
+	defer verifLoopDone(lid)
+	ticker = verifTicker(ticker, lid)
 	startTime := time.Now()
 	nTimes := 0
 	for {
+		verifGate("check", lid)
 		h.arpMutex.Lock()
 		targetAddr, hunting := h.findHuntByIP(addr.IP)
+		verifEmit("arp.check", lid, addr, targetAddr, hunting)
 		h.arpMutex.Unlock()
+		verifGate("act", lid)
 
 		if !hunting || h.closed {
 			if Logger.IsInfo() {
